@@ -102,3 +102,55 @@ func genBatchScenario(r *kit.Rng, backend string) *scenario {
 	sc.Ops = append(sc.Ops, &op{Op: "read", View: 0, WS: ws, Key: &kk})
 	return sc
 }
+
+// Big batches: ONE PutBatch call of `size` rows (sizes on and around the multiples of 256), in one
+// partition or spread over three, read back by single Gets at the portion boundaries, GetBatch
+// chunks of at most 256 keys (the GetBatch limit) over all rows, and a Read of every partition
+// (count and order are judged by the oracle; the raw storage call must be one PutBatch with
+// exactly the rows given).
+var bigSizes = []int{1, 2, 255, 256, 257, 511, 512, 513, 768, 1000}
+
+func genBigBatchScenario(r *kit.Rng, backend string, size int) *scenario {
+	sc := &scenario{Backend: backend}
+	ck := kit.Pick(r, []string{"int16", "int32"})
+	v := viewSpec{PK: []string{kit.Pick(r, []string{"int8", "int16"})}, CC: []string{ck}}
+	sc.Views = []viewSpec{v}
+	ws := kit.Pick(r, wsPool)
+	nparts := kit.Pick(r, []int{1, 1, 3})
+	base := kit.Pick(r, []uint64{0, 0xff, 0x7f00, 0xfe00}) // the run crosses byte carries (and the int16 sign change)
+	key := func(j int) keySpec {
+		return keySpec{P: []*uint64{u(uint64(1 + j%nparts))}, C: []*uint64{u((base + uint64(j)) & mask(ck))}}
+	}
+	// something older in the store: the first row is overwritten by the batch, a neighbour is not touched
+	k0 := key(0)
+	sc.Ops = append(sc.Ops, &op{Op: "put", View: 0, WS: ws, Key: &k0, Val: 7})
+	kn := key(size + nparts)
+	sc.Ops = append(sc.Ops, &op{Op: "put", View: 0, WS: ws, Key: &kn, Val: 8})
+	pb := &op{Op: "putbatch", WS: ws}
+	for j := 0; j < size; j++ {
+		pb.Items = append(pb.Items, item{View: 0, Key: key(j), Val: uint64(1000 + j)})
+	}
+	sc.Ops = append(sc.Ops, pb)
+	// single gets around the multiples of 256 and at both ends
+	seen := map[int]bool{}
+	for _, j := range []int{0, 1, 254, 255, 256, 257, 510, 511, 512, 513, 767, 768, size - 257, size - 256, size - 2, size - 1, size, size + nparts} {
+		if j >= 0 && j <= size+nparts && !seen[j] {
+			seen[j] = true
+			kk := key(j)
+			sc.Ops = append(sc.Ops, &op{Op: "get", View: 0, WS: ws, Key: &kk})
+		}
+	}
+	// all rows by GetBatch, at most 256 keys per call
+	for from := 0; from < size; from += 256 {
+		gb := &op{Op: "getbatch", WS: ws}
+		for j := from; j < size && j < from+256; j++ {
+			gb.Items = append(gb.Items, item{View: 0, Key: key(j)})
+		}
+		sc.Ops = append(sc.Ops, gb)
+	}
+	for p := 0; p < nparts; p++ {
+		kk := partial(key(p), 0, "")
+		sc.Ops = append(sc.Ops, &op{Op: "read", View: 0, WS: ws, Key: &kk})
+	}
+	return sc
+}
